@@ -1117,7 +1117,11 @@ fn step_c07(m: &EngModel, w: &mut World, s: &EngSt, a: &Act, out: &mut StepOut) 
                         let prepaid = so.pre.prepaid_bad_debt as i128;
                         let delta = (bad - prepaid).max(0);
                         let vault = so.pre.balances[&eng] as i128;
-                        let need_ref = (delta + (fee - vault - delta).max(0)) as u128;
+                        // what is left of the margin after the fee goes to the fund: under a gross reading of "shortfall" the
+                        // vault must be able to send it too (it comes straight back to the fund); the larger of the two
+                        // readings is used, so that either way the fund "holds enough"
+                        let rem_to_fund = (rm - fee).max(0);
+                        let need_ref = (delta + (fee + rem_to_fund - vault - delta).max(0)) as u128;
                         if need_ref < needed {
                             out.tag("c07:exact-fund-twin-reference-below-measured");
                             needed = need_ref;
